@@ -196,6 +196,61 @@ theorem fix_reports_every_change (c0 : Nat) (evs : List Ev) (hs : sortedFrom 0 e
     have : d ≤ max d (evs.foldl stepFix (initSt c0)).free := Nat.le_max_left _ _
     omega
 
+/-! ### Watcher errors (overflow of the kernel queue) -/
+
+theorem closed_stays (l : List Inp) : ∀ x : StX, x.closed.isSome = true → (l.foldl stepX x).closed.isSome = true := by
+  induction l with
+  | nil => intro x h; exact h
+  | cons i r ih =>
+    intro x h
+    apply ih
+    cases i <;> simp [stepX, h]
+
+/-- any watcher error closes the signal channel: the consumer is woken -/
+theorem err_wakes_consumer (l : List Inp) : ∀ x : StX, hasErr l = true → (l.foldl stepX x).closed.isSome = true := by
+  induction l with
+  | nil => intro x h; simp [hasErr] at h
+  | cons i r ih =>
+    intro x h
+    cases i with
+    | ev e => exact ih _ (by simpa [hasErr] using h)
+    | err t =>
+      show (r.foldl stepX (stepX x (.err t))).closed.isSome = true
+      apply closed_stays r
+      by_cases hc : x.closed.isSome = true
+      · simp [stepX, hc]
+      · have : x.closed.isSome = false := by simpa using hc
+        simp [stepX, this]
+
+/-- without errors the loop is the one of `stepFix` -/
+theorem noerr_runX (l : List Inp) : ∀ s : St, hasErr l = false →
+    l.foldl stepX { s := s } = { s := (evsOf l).foldl stepFix s } := by
+  induction l with
+  | nil => intro s _; rfl
+  | cons i r ih =>
+    intro s h
+    cases i with
+    | ev e =>
+      simp only [hasErr] at h
+      simp only [List.foldl_cons, stepX, evsOf, Option.isSome_none, Bool.false_eq_true, if_false]
+      exact ih _ h
+    | err t => simp [hasErr] at h
+
+/-- **With watcher errors in the alphabet:** for every time-ordered history of delivered events and
+errors, either the signal channel has been closed (the consumer is woken for good and loads the file),
+or every change has been followed by a signal. -/
+theorem fix_reports_or_wakes (c0 : Nat) (l : List Inp) (hs : sortedFrom 0 (evsOf l) = true)
+    (hfin : finalCur c0 (evsOf l) ≠ 0) :
+    (runX c0 l).closed.isSome = true ∨
+    allReported (changeTimes c0 (evsOf l)) (finish (runX c0 l).s).signals = true := by
+  cases he : hasErr l with
+  | true => exact Or.inl (err_wakes_consumer l _ he)
+  | false =>
+    right
+    unfold runX
+    rw [noerr_runX l (initSt c0) he]
+    exact fix_reports_every_change c0 (evsOf l) hs hfin
+
 /-! ### The loop as found: full statement, witness, partial theorem -/
 
 /-- The property as stated, for the loop as found. -/
